@@ -10,6 +10,7 @@ Template language (everything else in the template is copied verbatim):
   //@| ret <name>                      name the return value:  -> T   becomes  -> (name: T)
   //@| spec                            following //@: lines are inserted after the signature
   //@| loop <k> [label <it>]           //@: lines inserted in front of the body of the k-th loop
+  //@| desugar-for <k> <it>            R10 on the k-th loop; //@| preloop <k> / loopbody <k>: lines before the loop / at the top of its body
   //@| before "<literal>" [#n]         //@: lines inserted before the n-th occurrence of the literal
   //@| after "<literal>" [#n]          //@: lines inserted after it
   //@| external                        R3: body dropped, #[verifier::external_body] added (contract = assumption)
@@ -26,6 +27,8 @@ Rewrites applied by the extractor are a closed list (reported per unit):
   R3 body of an item marked `external`
   R6 argument-position `impl Trait` -> named type parameter
   R7 return value naming `-> T` -> `-> (r: T)` (Verus syntax for naming the result; no semantic change)
+  R10 `for PAT in EXPR { .. }` -> `let mut it = IntoIterator::into_iter(EXPR); loop { let PAT = match it.next() { Some(v) => v, None => break }; .. }`
+      (the language reference's definition of `for`; used only where the body has `continue`, which Verus rejects in for-loops)
   R9 `const` -> `exec const` with an `ensures` (Verus mode annotation) when the template gives a spec for a const
   R8 restricted visibility `pub(crate)` / `pub(super)` -> `pub` (the unit is a single-file crate)
 Macros (format!, format_error!, debug_assert!, ...) are NOT rewritten: the unit prelude defines
@@ -103,7 +106,7 @@ def parse_template(text, base_dir='.'):
             close()
             spec = s[len('//@extract '):]
             segs = [x.strip() for x in spec.split(' >> ')]
-            cur = dict(file=segs[0], path=segs[1:], obligs=[], ret=None, spec=[], loops={}, inserts=[],
+            cur = dict(file=segs[0], path=segs[1:], obligs=[], ret=None, spec=[], loops={}, inserts=[], desugar={}, loopbody={}, preloop={},
                        external=False, keep_attrs=False, subs=[], rename=None, tline=ln)
             sec = None
             continue
@@ -127,6 +130,18 @@ def parse_template(text, base_dir='.'):
                     raise TemplateError('line %d: bad loop directive' % ln)
                 sec = []
                 cur['loops'][int(m.group(1))] = dict(label=m.group(2), lines=sec)
+            elif kw == 'desugar-for':
+                m = re.match(r'(\d+)\s+(\w+)$', rest)
+                if not m:
+                    raise TemplateError('line %d: bad desugar-for directive' % ln)
+                cur['desugar'][int(m.group(1))] = m.group(2)
+                sec = None
+            elif kw in ('loopbody', 'preloop'):
+                m = re.match(r'(\d+)$', rest)
+                if not m:
+                    raise TemplateError('line %d: bad %s directive' % (ln, kw))
+                sec = []
+                cur[kw][int(m.group(1))] = sec
             elif kw in ('before', 'after'):
                 m = re.match(r'"((?:[^"\\]|\\.)*)"(?:\s+#(\d+))?$', rest)
                 if not m:
@@ -206,6 +221,10 @@ def neg_ids(nodes):
             for ins in n['inserts']:
                 for h in ins['lines']:
                     scan(h)
+            for d in (n['loopbody'], n['preloop']):
+                for l in d.values():
+                    for h in l:
+                        scan(h)
     return ids
 
 
@@ -340,14 +359,34 @@ def extract(node, variant, report):
         if spec_lines:
             pos = it.body_open if it.body_open >= 0 else it.end - 1
             edits.append((pos, pos, '\n' + '\n'.join(spec_lines) + '\n', 'spec'))
-        if node['loops']:
+        if node['loops'] or node['desugar'] or node['loopbody'] or node['preloop']:
             loops = rsitems.loops_in(src, it)
-            for k, l in node['loops'].items():
+            ks = set(node['loops']) | set(node['desugar']) | set(node['loopbody']) | set(node['preloop'])
+            for k in sorted(ks):
                 if k > len(loops):
                     raise AnchorLost('%s: loop %d not found in %s' % (node['file'], k, ' >> '.join(node['path'])))
                 kw_pos, kw, bopen, in_pos = loops[k - 1]
-                lines = [_pick(h, variant) for h in l['lines']]
-                edits.append((bopen, bopen, '\n' + '\n'.join(lines) + '\n', 'loop'))
+                l = node['loops'].get(k, dict(label=None, lines=[]))
+                inv = '\n'.join(_pick(h, variant) for h in l['lines'])
+                pre = '\n'.join(_pick(h, variant) for h in node['preloop'].get(k, []))
+                body = '\n'.join(_pick(h, variant) for h in node['loopbody'].get(k, []))
+                if k in node['desugar']:
+                    # R10: `for PAT in EXPR {` -> `let mut IT = IntoIterator::into_iter(EXPR); loop <inv> { let PAT = match IT.next() { Some(v) => v, None => break };`
+                    if kw != 'for' or in_pos < 0:
+                        raise TemplateError('desugar-for on a loop that is not `for .. in`')
+                    itn = node['desugar'][k]
+                    pat = text[kw_pos + 3:in_pos].strip()
+                    expr = text[in_pos + 2:bopen].strip()
+                    rep = 'let mut %s = IntoIterator::into_iter(%s);\n%s\nloop\n%s\n{ let %s = match %s.next() { Some(v__) => v__, None => break };\n%s\n' % (itn, expr, pre, inv, pat, itn, body)
+                    edits.append((kw_pos, bopen + 1, rep, 'R10'))
+                    rule('R10')
+                    continue
+                if pre:
+                    edits.append((kw_pos, kw_pos, pre + '\n', 'loop'))
+                if inv:
+                    edits.append((bopen, bopen, '\n' + inv + '\n', 'loop'))
+                if body:
+                    edits.append((bopen + 1, bopen + 1, '\n' + body + '\n', 'loop'))
                 if l['label']:
                     if in_pos < 0:
                         raise TemplateError('label on a loop that is not `for .. in`')
